@@ -3,7 +3,7 @@ SPECIFICATION Spec
 CONSTANTS
   Real = TRUE
   CharSigned = TRUE
-  Families = {"chain", "flit", "fround", "binsame", "binmix", "fbin", "un", "cast", "condfew", "unev", "nest", "num", "leaf", "addr", "comp"}
+  Families = {"casect", "chain", "flit", "fround", "binsame", "binmix", "fbin", "un", "cast", "condfew", "unev", "nest", "num", "leaf", "addr", "comp"}
   Level = 2
   Dev_LogicalReturnsOperand = FALSE
   Dev_BoolCastTruncates = FALSE
